@@ -13,7 +13,7 @@ func genC18(tier string, seed int64) (*Family, error) {
 	pkg := "c18"
 	fam := &Family{
 		Prop: "C18", BothOrders: true, PkgPath: modPath + "/zz_verif/" + pkg, Files: map[string]string{},
-		Bounds: map[string]interface{}{"members_per_block": "0..3 (thorough 4)", "member_kinds": "local assignment, injected-field assignment, function, method, three-level call", "failing_subset": "symbolic (panicking injected function)"},
+		Bounds: map[string]interface{}{"members_per_block": "0..3 (thorough 4), fixed wide blocks of 17, 20 and 33", "member_kinds": "local assignment, injected-field assignment, function, method, three-level call", "failing_subset": "symbolic (panicking injected function)"},
 		Cfg:    interp.Config{MaxSteps: 3_000_000, TrackMakeMaps: []string{"base.RuleEntity).Execute"}, TrackAllocs: []string{"*"}, TrackHostStructs: true},
 		Functions: []string{"base.ConcStatement).Evaluate", "base.Assignment).Evaluate", "base.FunctionCall).Evaluate", "base.MethodCall).Evaluate", "base.ThreeLevelCall).Evaluate",
 			"DataContext).ExecFunc", "DataContext).ExecMethod", "DataContext).ExecThreeLevel", "core.InvokeFunction"},
@@ -252,6 +252,78 @@ func %s() {
 }
 `, before, name, text, extra)
 		fam.Instances = append(fam.Instances, Instance{Func: name, Stratum: "many-locals", Desc: fmt.Sprintf("%d locals before a block of five assignments", before), Text: text, Expect: []string{"executed"}})
+	}
+	secondText := "rule \"r\" begin\n conc {\n  a0 = w(0, v0, false)\n  a1 = w(1, v1, false)\n  obj.X2 = w(2, v2, false)\n }\n ev(\"after\")\n return a0 + a1 + obj.X2\nend\n"
+	fmt.Fprintf(&b, `
+// the same builder executed three times with different data: every execution's block works on that execution's locals
+func H_conc_repeated_execution() {
+	dc := newDC(nil)
+	dc.Add("w", w)
+	obj := &Obj{Inner: &Inner{}}
+	dc.Add("obj", obj)
+	rb := buildText(dc, %q)
+	eng := engine.NewGengine()
+	for call := 0; call < 3; call++ {
+		v := symVals("v", 3)
+		addVals(dc, "v", v)
+		s0, s1, a := vnd.Count(mname(0, ".s")), vnd.Count(mname(1, ".s")), vnd.Count("after")
+		err := eng.Execute(rb, true)
+		vnd.Quiesce()
+		res, _ := eng.GetRulesResultMap()
+		vnd.NoRaces("map:")
+		vnd.StopIfViolated()
+		vnd.Assert(err == nil, "the block fails iff a member fails")
+		vnd.Assert(vnd.Count(mname(0, ".s"))-s0 == 1 && vnd.Count(mname(1, ".s"))-s1 == 1, "every member runs exactly once")
+		vnd.Assert(vnd.Count("after")-a == 1, "the next statement runs iff the block succeeded")
+		x, ok := res["r"].(int64)
+		vnd.Assert(ok, "result")
+		vnd.Assert(x == v[0]+v[1]+v[2], "the statement after the block observes every assignment of this execution")
+	}
+	vnd.Reach("executed")
+}
+`, secondText)
+	fam.Instances = append(fam.Instances, Instance{Func: "H_conc_repeated_execution", Stratum: "repeated-execution", Desc: "one builder executed three times, block assigning locals read after it", Text: secondText, Expect: []string{"executed"}})
+	for _, total := range []int{17, 20, 33} {
+		name := fmt.Sprintf("H_conc_wide_%d", total)
+		text := "rule \"r\" begin\n conc {\n  a0 = w(0, v0, p0)\n"
+		for i := 1; i < total-1; i++ {
+			text += fmt.Sprintf("  fn(%d, false)\n", i)
+		}
+		text += fmt.Sprintf("  obj.Do(%d, p1)\n }\n ev(\"after\")\n return a0\nend\n", total-1)
+		fmt.Fprintf(&b, `
+// a block of %d members; the first and the last one may fail
+func %s() {
+	k := %d
+	p := symFlags("p", 2)
+	v := symVals("v", 1)
+	dc := newDC(nil)
+	addFlags(dc, "p", p)
+	addVals(dc, "v", v)
+	dc.Add("obj", &Obj{Inner: &Inner{}})
+	dc.Add("w", w)
+	dc.Add("fn", member)
+	rb := buildText(dc, %q)
+	eng := engine.NewGengine()
+	err := eng.Execute(rb, true)
+	vnd.Event("ret")
+	vnd.Quiesce()
+	res, _ := eng.GetRulesResultMap()
+	vnd.Reach("executed")
+	for i := 0; i < k; i++ {
+		vnd.Assert(vnd.Count(mname(int64(i), ".s")) == 1, "every member runs exactly once")
+	}
+	vnd.RequireJoined("ret")
+	vnd.StopIfViolated()
+	anyFail := vnd.Or(p[0], p[1])
+	vnd.Assert(vnd.Iff(err != nil, anyFail), "the block fails iff a member fails")
+	vnd.Assert(vnd.Iff(vnd.Count("after") == 1, vnd.Not(anyFail)), "the next statement runs iff the block succeeded")
+	if err == nil {
+		x, ok := res["r"].(int64)
+		vnd.Assert(ok && x == v[0], "the statement after the block observes every assignment")
+	}
+}
+`, total, name, total, text)
+		fam.Instances = append(fam.Instances, Instance{Func: name, Stratum: "wide", Desc: fmt.Sprintf("block of %d members, first and last may fail", total), Text: text, Expect: []string{"executed"}})
 	}
 	sameTargetText := "rule \"r\" begin\n conc {\n  obj.X0 = missing\n  obj.X0 = w(0, v0, false)\n  a = missing2\n  a = w(1, v1, false)\n  a = w(2, v2, false)\n }\n ev(\"after\")\nend\n"
 	fmt.Fprintf(&b, `
